@@ -53,12 +53,16 @@ def _work(spec: dict, prop: str, tier: str, verif_seed: int, start: int, count: 
     E = engine_for(spec["engine"])
     agg = {
         "runs": 0, "steps": 0, "probes": Counter(), "faults": Counter(), "keys": set(), "ntkeys": set(),
-        "violations": [], "samples": [], "errors": [], "digests": [], "extra": Counter(),
+        "violations": [], "samples": [], "errors": [], "digests": [], "extra": Counter(), "slow": [],
     }
     for i in range(start, start + count):
         seed = run_seed(prop, tier, verif_seed, i)
+        t_case = time.time()
         try:
-            case = E.gen_case(seed, prop, tier, **spec.get("gen_kw", {}))
+            if getattr(E, "INDEXED", False):
+                case = E.gen_case(seed, prop, tier, index=i, verif_seed=verif_seed)
+            else:
+                case = E.gen_case(seed, prop, tier, **spec.get("gen_kw", {}))
             res = E.run_case(case)
         except core.HarnessError as e:
             agg["errors"].append((i, seed, "HarnessError: " + str(e)))
@@ -69,6 +73,9 @@ def _work(spec: dict, prop: str, tier: str, verif_seed: int, start: int, count: 
             agg["errors"].append((i, seed, traceback.format_exc()[-1500:]))
             continue
         agg["runs"] += 1
+        dt = time.time() - t_case
+        if dt > 2.0:
+            agg["slow"].append((round(dt, 1), i, str(case.get("fault") or case.get("kind") or case.get("fmt"))[:120]))
         agg["steps"] += res.steps
         agg["probes"].update(res.probes)
         agg["faults"].update(res.faults)
@@ -187,7 +194,7 @@ def campaign(prop: str, tier: str, verif_seed: int, spec: dict, workers: int | N
     print(f"# property={prop} tier={tier} VERIF_SEED={verif_seed} runs={total} workers={workers} engine={spec['engine']}", flush=True)
 
     tot = {"runs": 0, "steps": 0, "probes": Counter(), "faults": Counter(), "keys": set(), "ntkeys": set(),
-           "violations": [], "samples": [], "errors": [], "extra": Counter()}
+           "violations": [], "samples": [], "errors": [], "extra": Counter(), "slow": []}
     dig = hashlib.sha256()
 
     # regression corpus first
@@ -209,7 +216,16 @@ def campaign(prop: str, tier: str, verif_seed: int, spec: dict, workers: int | N
 
     if hasattr(E, "preload"):
         E.preload()  # loaded before the fork so that workers share the pages
+    exhaustive = False
+    if getattr(E, "INDEXED", False):
+        plan_n = E.plan_size(prop, tier, verif_seed)  # enumerated in the parent; workers inherit the plan through fork
+        if runs is None:
+            total = plan_n
+            exhaustive = plan_n == getattr(E, "full_plan_size", E.plan_size)(prop, tier, verif_seed)
+        print(f"# enumerated plan: {plan_n} (base input x fault) evaluations", flush=True)
     batch = max(5, min(200, total // (workers * 6) or 1))
+    if getattr(E, "INDEXED", False):
+        batch = 16  # evaluation cost varies a lot between faults: small batches keep the workers balanced
     jobs = [(s, min(batch, total - s)) for s in range(0, total, batch)]
     deadline = t0 + budget
     timed_out = False
@@ -232,6 +248,7 @@ def campaign(prop: str, tier: str, verif_seed: int, spec: dict, workers: int | N
                 tot["ntkeys"] |= agg["ntkeys"]
                 tot["violations"].extend(agg["violations"])
                 tot["errors"].extend(agg["errors"])
+                tot["slow"].extend(agg["slow"])
                 all_digests.extend(agg["digests"])
                 if len(tot["samples"]) < 6:
                     tot["samples"].extend(agg["samples"])
@@ -262,6 +279,10 @@ def campaign(prop: str, tier: str, verif_seed: int, spec: dict, workers: int | N
             new_by_class[ck] = (i, seed, case, viol)
     exit_code = 0
     reported = []
+    if len(new_by_class) > 4:
+        print(f"# {len(new_by_class)} distinct violation signatures; minimising and reporting the first 4. All signatures:", flush=True)
+        for (klass, sg), (i, seed, case, viol) in list(new_by_class.items())[:40]:
+            print(f"#   {klass} {sg[:160]} :: {viol['detail'][:140]}", flush=True)
     for (klass, _), (i, seed, case, viol) in list(new_by_class.items())[:4]:
         try:
             mcase = shrink.minimise(E.run_case, case, klass, getattr(E, "SHRINK_LISTS", []), getattr(E, "simplify", None),
@@ -298,6 +319,8 @@ def campaign(prop: str, tier: str, verif_seed: int, spec: dict, workers: int | N
         print(f"# HARNESS ERRORS: {len(tot['errors'])}", flush=True)
         for e in tot["errors"][:5]:
             print("#   ", str(e)[:1200].replace("\n", "\n#    "), flush=True)
+    if tot["slow"]:
+        print("# slowest evaluations (s, index, what):", sorted(tot["slow"], reverse=True)[:6], flush=True)
     if timed_out:
         print(f"# wall budget of {budget}s hit after {tot['runs']} of {total} runs", flush=True)
     runs_done = tot["runs"]
@@ -310,7 +333,7 @@ def campaign(prop: str, tier: str, verif_seed: int, spec: dict, workers: int | N
                 "distinct_states": len(tot["keys"]),
                 "rule": spec["rule"],
                 "samples": tot["samples"][:4],
-                "exhaustive": False,
+                "exhaustive": bool(exhaustive and not timed_out),
                 "simulated_steps": tot["steps"],
                 "simulated_time_note": "the repo has no clock; simulated time is the global event sequence number",
                 "runs_per_hour": int(runs_done / max(wall, 1e-6) * 3600),
